@@ -241,7 +241,8 @@ def goOpsRaw (a : Args) : String :=
   | some op, some p, some s =>
     if s == "NOIMPL" then "ok" else
     let q := (arg a "q").bind fxList? |>.getD []
-    let cmd := if op == "addassign" then "add" else if op == "subassign" then "sub" else op
+    let cmd := if op == "addassign" || op == "refadd" then "add" else if op == "subassign" || op == "refsub" then "sub"
+      else if op == "refmul" then "mul" else if op == "refneg" then "neg" else op
     match Out.parseLike (.nums []) s with
     | none => "bad cannot parse impl"
     | some impl =>
@@ -547,6 +548,12 @@ def handle (line : String) : String :=
       | "add" => (forNegAdd! tag, goAdd, a)
       | "opsraw" => some (goOpsRaw a)
       | "pwopsraw" => some (goPwOpsRaw a)
+      | "mergeraw" => some (match a.get "impl" with
+          | some "NOIMPL" => "ok"
+          | some "1" => "ok"
+          | some "0" => "MONFAIL `&f ± &g` (probed impl): the result is not well-formed, or at a breakpoint of an operand its value is not f(x) ± g(x) up to rounding"
+          | some "PANIC" => "MONFAIL `&f ± &g` (probed impl) panicked on well-formed operands"
+          | _ => "bad args")
       | "absdiff" => (forAll! tag, goAbsDiff, a)
       | "releq" => (forAll! tag, goRelEq, a)
       | "pwderiv" => (forDeriv! tag, goPwDeriv, a)
